@@ -42,6 +42,7 @@ def panicErr : Panic → Err
   | .fuel => .fuel
   | .assertion => .panic "assertion failed" 9004
   | .runtime => .panic "runtime error" 9005
+  | .mismatch => .panic "the second run of a candidate differs" 9006
 
 /-- the outcome of a script whose value is an encoded `Val`: a panic of the Go code leaves the open groups unfinished -/
 def StRes.core : StRes (Except Panic Val) → Core
